@@ -11,7 +11,7 @@ import sys
 
 VERIF = os.path.dirname(os.path.dirname(os.path.abspath(__file__)))
 INC = os.path.join(VERIF, ".build", "incoming")
-OUT = os.path.join(VERIF, ".build", "confirm_results.json")
+OUT = os.environ.get("CONFIRM_OUT") or os.path.join(VERIF, ".build", "confirm_results.json")      # parallel instances write separate files (confirm_results*.json)
 JOBS = os.environ.get("CONFIRM_JOBS", "8")
 
 
@@ -43,12 +43,17 @@ def _sha(path):
 def main():
     pids = sys.argv[1:] or sorted(os.listdir(INC))
     results = json.load(open(OUT)) if os.path.exists(OUT) else {}
+    done_elsewhere = {}
+    for f in glob.glob(os.path.join(VERIF, ".build", "confirm_results*.json")):
+        if os.path.abspath(f) != os.path.abspath(OUT):
+            done_elsewhere.update(json.load(open(f)))
     head = subprocess.check_output(["git", "-C", "/repo", "rev-parse", "--short", "HEAD"]).decode().strip()
     for pid in pids:
         for patch in sorted(glob.glob(os.path.join(INC, pid, "m*.diff"))):
             m = os.path.basename(patch)[:-5]
             key = "%s/%s" % (pid, m)
-            if key in results and results[key].get("tests") and results[key].get("patch_sha") in (None, _sha(patch)):
+            prev = results.get(key) or done_elsewhere.get(key)
+            if prev and prev.get("tests") and prev.get("patch_sha") in (None, _sha(patch)):
                 continue        # confirmed before (against an earlier /repo HEAD is fine as long as the patch file is the same)
             res = {"head": head, "patch_sha": _sha(patch)}
             S = "/tmp/vconf_%s_%s" % (pid, m)
